@@ -324,7 +324,7 @@ func c10Chain(c *lib.Ctx, idx uint64) {
 	var opts []fit.DecodeOption
 	withOpts := rng.Chance(1, 2)
 	if withOpts {
-		opts = []fit.DecodeOption{fit.WithUnknownFields(), fit.WithUnknownMessages()}
+		opts = optionList(6, nil, idx)
 		c.Count("chains_with_unknown_options", 1)
 	}
 	var files []*fit.File
